@@ -368,7 +368,23 @@ def render_fn(doc, it, parent, d, relfile, report, twin=False):
     if contract.strip():
         ed.insert(body["open"], "\n" + contract + "\n    ", -1)
         rw["R1"] = rw.get("R1", 0) + 1
-    if twin:
+    if twin == "exits" or (isinstance(twin, tuple) and twin[0] == "exits"):
+        # exit probes (tools/exit_probes.py): `assert(false)` in front of every `return` and of the tail expression; each must FAIL.
+        # One that verifies marks an exit that is unreachable under the contracts in force -- or a contradiction among trusted contracts.
+        k = 0
+        lastst = None
+        for st in body["stmts"]:
+            if st["block_open"] == body["open"] and (lastst is None or st["span"][0] > lastst["span"][0]):
+                lastst = st
+        for st in body["stmts"]:
+            if st["norm"].startswith("return") or (st is lastst and st["kind"] == "expr"):
+                # one probe per function and run (Verus stops reporting after the first few failed assertions of a function)
+                if not isinstance(twin, tuple) or twin[1] == k:
+                    ed.insert(st["span"][0], "proof { assert(false); } /*VPROBE %s #%d*/ " % (it["path"], k), -9)
+                else:
+                    ed.insert(st["span"][0], "/*VSKIP %s #%d*/ " % (it["path"], k), -9)
+                k += 1
+    elif twin:
         # vacuity twin: `assert(false)` at the start of the body must FAIL; if it verifies, the precondition is contradictory.
         # (the check is local to the function: callers only see the contract, which is unchanged)
         ed.insert(body["open"] + 1, " proof { assert(false); } ", 9)
